@@ -25,7 +25,8 @@ func (it *Interp) loadPath(v Value, path []PathElem) (Value, bool) {
 		return it.loadPath(childOf(v, e.I), path[1:])
 	}
 	var res Value
-	for k := e.N - 1; k >= 0; k-- {
+	klo, khi := it.symRange(e)
+	for k := khi; k >= klo; k-- {
 		c, ok := it.loadPath(childOf(v, e.Off+k), path[1:])
 		if !ok {
 			return nil, false
@@ -40,6 +41,23 @@ func (it *Interp) loadPath(v Value, path []PathElem) (Value, bool) {
 		}
 	}
 	return res, true
+}
+
+// symRange restricts the candidate cells of a symbolic index using the interval domain.
+func (it *Interp) symRange(e PathElem) (int, int) {
+	klo, khi := 0, e.N-1
+	if lo, hi, ok := it.bounds(e.Sym); ok {
+		if int(lo) > klo {
+			klo = int(lo)
+		}
+		if int(hi) < khi {
+			khi = int(hi)
+		}
+	}
+	if klo > khi { // contradictory information: keep the full range (the path is infeasible anyway)
+		return 0, e.N - 1
+	}
+	return klo, khi
 }
 
 func (it *Interp) sameSortInt(like *Term, k int) *Term {
@@ -159,7 +177,8 @@ func (it *Interp) storePath(container Value, path []PathElem, v Value, guard *Te
 		return it.storePath(childOf(container, e.I), path[1:], v, guard)
 	}
 	// dry run for mergeability is folded into the writes: for scalars/aggregates of scalars it always succeeds
-	for k := 0; k < e.N; k++ {
+	klo, khi := it.symRange(e)
+	for k := klo; k <= khi; k++ {
 		g := it.tb.And(guard, it.tb.Eq(e.Sym, it.sameSortInt(e.Sym, k)))
 		if len(path) == 1 {
 			nv, ok := it.iteVal(g, v, childOf(container, e.Off+k))
